@@ -188,7 +188,9 @@ func (lb *litBuilder) floatBitsTerm(f string) string {
 	return "(fp.to_ieee_bv " + f + ")"
 }
 
-func (lb *litBuilder) want(t string) { lb.terms = append(lb.terms, strings.Join(strings.Fields(t), " ")) }
+func (lb *litBuilder) want(t string) {
+	lb.terms = append(lb.terms, strings.Join(strings.Fields(t), " "))
+}
 
 func (lb *litBuilder) intOf(t string, s *Sort) (*big.Int, bool) {
 	v, ok := lb.x[strings.Join(strings.Fields(t), " ")]
@@ -366,6 +368,22 @@ func tryReplay(w *World, o *Obligation, dir string) replayResult {
 			rf.Note += "; "
 		}
 		rf.Note += "no replay: " + why
+		// last resort: a hand-written replay hint for this function (bounded search on the real code for
+		// inputs that live behind an interface, e.g. a file in a Directory). Only a reproduced failure counts.
+		if w != nil && o.RootKey != "" && o.Status != "discharged" && os.Getenv("VERIF_NO_REPLAY") == "" {
+			if src, pkg, ok := replayHint(w, o.RootKey); ok {
+				out, confirmed := runHintOnce(w.repo, pkg, o.RootKey, src)
+				rf.Note += "; replay hint " + hintPath(o.RootKey) + " run"
+				if confirmed {
+					rf.TestSource = src
+					rf.TestPkg = pkg
+					rf.TestOutput = truncate(out, 3000)
+					rf.Confirmed = true
+					return replayResult{true, writeReplayFileRF(dir, rf)}
+				}
+				rf.Note += " (no failure reproduced)"
+			}
+		}
 		return replayResult{false, writeReplayFileRF(dir, rf)}
 	}
 	if w == nil || w.prog == nil || o.VC == nil || o.RootKey == "" || os.Getenv("VERIF_NO_REPLAY") != "" {
@@ -500,6 +518,49 @@ func TestVerifReplay(t *testing.T) {
 	rf.TestOutput = truncate(out, 3000)
 	rf.Confirmed = confirmed
 	return replayResult{confirmed, writeReplayFileRF(dir, rf)}
+}
+
+func hintPath(rootKey string) string {
+	k := strings.TrimPrefix(rootKey, modulePath+"/")
+	k = strings.NewReplacer("/", ".", "(", "", ")", "", "*", "").Replace(k)
+	return filepath.Join(verifDir(), "replay_hints", k+".go")
+}
+
+// replayHint: source and package of the hand-written replay hint of a function, if there is one.
+func replayHint(w *World, rootKey string) (src, pkg string, ok bool) {
+	fn := w.FindFunc(rootKey)
+	if fn == nil || fn.Pkg == nil {
+		return "", "", false
+	}
+	b, err := os.ReadFile(hintPath(rootKey))
+	if err != nil {
+		return "", "", false
+	}
+	return string(b), fn.Pkg.Pkg.Path(), true
+}
+
+var hintMu sync.Mutex
+var hintRuns = map[string]*struct {
+	once      sync.Once
+	out       string
+	confirmed bool
+}{}
+
+// runHintOnce: a hint is run once per function and run (several obligations of one function share it).
+func runHintOnce(repo, pkg, rootKey, src string) (string, bool) {
+	hintMu.Lock()
+	r := hintRuns[rootKey]
+	if r == nil {
+		r = &struct {
+			once      sync.Once
+			out       string
+			confirmed bool
+		}{}
+		hintRuns[rootKey] = r
+	}
+	hintMu.Unlock()
+	r.once.Do(func() { r.out, r.confirmed = runOverlayTest(repo, pkg, src) })
+	return r.out, r.confirmed
 }
 
 func runOverlayTest(repo, pkgPath, src string) (string, bool) {
